@@ -369,10 +369,18 @@ func batchFacts(b *batch) []*factRec {
 		}
 		// SPDX (single package document)
 		f.Spdx.ExpectPresent = pu != nil && pu.Name != "" && pu.Version != ""
-		single := scanResultOf([]*extractor.Package{p})
+		// the package is converted between two neighbours (same extractor and metadata, other names and locations):
+		// nothing of a neighbour may show up in its record
+		decoy := func(tag string) *extractor.Package {
+			cp := *p
+			cp.Name = p.Name + "-decoy-" + tag
+			cp.Locations = []string{"decoy/" + tag + "/location"}
+			return &cp
+		}
+		single := scanResultOf([]*extractor.Package{decoy("a"), p, decoy("z")})
 		if pn := Safely(func() {
 			doc := converter.ToSPDX23(single, converter.SPDXConfig{})
-			if doc == nil || len(doc.Packages) < 1 || len(doc.Packages) > 2 {
+			if doc == nil || (len(doc.Packages) != 1 && len(doc.Packages) != 4) {
 				f.Detail = append(f.Detail, "ToSPDX23: unexpected number of packages in the document")
 				return
 			}
@@ -380,7 +388,7 @@ func batchFacts(b *batch) []*factRec {
 				return
 			}
 			f.Spdx.Present = true
-			sp := doc.Packages[1]
+			sp := doc.Packages[2]
 			f.Spdx.Name = sp.PackageName == p.Name || (pu != nil && sp.PackageName == pu.Name)
 			f.Spdx.Version = sp.PackageVersion == p.Version || (pu != nil && sp.PackageVersion == pu.Version)
 			for _, er := range sp.PackageExternalReferences {
@@ -407,12 +415,12 @@ func batchFacts(b *batch) []*factRec {
 		// CDX
 		if pn := Safely(func() {
 			bom := converter.ToCDX(single, converter.CDXConfig{ComponentName: "verif", ComponentVersion: "1"})
-			if bom == nil || bom.Components == nil || len(*bom.Components) != 1 {
-				f.Detail = append(f.Detail, "ToCDX: the document does not have exactly one component")
+			if bom == nil || bom.Components == nil || len(*bom.Components) != 3 {
+				f.Detail = append(f.Detail, "ToCDX: the document does not have exactly one component per package")
 				return
 			}
 			f.Cdx.Present = true
-			c := (*bom.Components)[0]
+			c := (*bom.Components)[1]
 			f.Cdx.Name = c.Name == p.Name
 			f.Cdx.Version = c.Version == p.Version
 			f.Cdx.Purl = c.PackageURL == f.Purl
